@@ -210,6 +210,18 @@ def gen_dataset(rng, opts=None):
             elif r < 0.55:
                 b["state"] = "warning"
                 b["error"] = "read timeout"
+    if len(backends) >= 2 and rng.random() < opts.get("zero_backend_p", 0):
+        # one backend whose numbers are all 0 although it has rows: its partial sums are 0, its row counts are not
+        b = rng.choice(backends[1:] if rng.random() < 0.7 else backends)
+        for tname in ("hosts", "services"):
+            t = b["tables"].get(tname)
+            if not t:
+                continue
+            for cname in AGG_COLS.get(tname, []):
+                if cname in t["cols"] and cname not in ("state", "last_check", "num_services", "host_num_services"):
+                    i = t["cols"].index(cname)
+                    for row in t["rows"]:
+                        row[i] = 0
     ds = {"backends": backends,
           "service_auth": rng.choice(opts.get("service_auth", ["loose"])),
           "group_auth": rng.choice(opts.get("group_auth", ["strict"]))}
@@ -700,12 +712,17 @@ def gen_stats_query(rng, schema, ds, opts=None):
                 for _ in range(rest_n):
                     rest += gen_tree(rng, schema, ds, table, cols, dict(opts, negate_p=0.1), "Stats", rng.choice([0, 0, 1]))
                 lead = list(shared)
-                if rng.random() < 0.3 and lead and lead[0].startswith("Stats: ") and len(lead[0].split(" ")) >= 3:
+                if rng.random() < 0.45 and lead and lead[0].startswith("Stats: ") and len(lead[0].split(" ")) >= 3:
                     # a near miss of the shared leading term: other operator, other value, negated, or other custom variable
                     parts = lead[0].split(" ")
                     m = rng.choice(["op", "op", "value", "negate", "tag"])
                     if m == "op":
-                        parts[2] = rng.choice([o for o in ["=", "!=", "<", ">", ">=", "<=", "~", "~~"] if o != parts[2]])
+                        # mostly the operator that selects the other rows, so that a wrongly shared term shows in the counts
+                        opposite = {"=": "!=", "!=": "=", "<": ">=", ">=": "<", ">": "<=", "<=": ">", "~": "!~", "!~": "~", "~~": "!~~", "!~~": "~~"}
+                        if parts[2] in opposite and rng.random() < 0.6:
+                            parts[2] = opposite[parts[2]]
+                        else:
+                            parts[2] = rng.choice([o for o in ["=", "!=", "<", ">", ">=", "<=", "~", "~~"] if o != parts[2]])
                         lead[0] = " ".join(parts)
                     elif m == "value":
                         lead[0] = " ".join(parts[:3] + ["zz9"])
